@@ -403,6 +403,7 @@ where
             let weight = entry.policy_weight();
             self.deques.unlink_ao(&mut entry);
             Deques::unlink_wo(&mut self.deques.write_order, &mut entry);
+            self.entry_count -= 1;
             self.saturating_sub_from_total_weight(weight as u64);
         }
     }
